@@ -1026,3 +1026,41 @@ V("C11", "retrieve-slots-swapped", L,
   ("                        fd, family, type_, laddr, raddr, status, bound_pid\n                    )",
    "                        fd, family, type_, raddr, laddr, status, bound_pid\n                    )"),
   "fires:C11.R4")
+
+# ----------------------------------------------------------------- round 3 (seed-driven rules)
+V("C11", "ipv6-rendered-with-ipaddress", L,
+  [("                if LITTLE_ENDIAN:\n                    ip = socket.inet_ntop(\n                        socket.AF_INET6,\n                        struct.pack('>4I', *struct.unpack('<4I', ip)),\n                    )",
+    "                if LITTLE_ENDIAN:\n                    import ipaddress\n                    ip = str(ipaddress.IPv6Address(\n                        struct.pack('>4I', *struct.unpack('<4I', ip))\n                    ))")],
+  "fires:C11.R5")
+V("C11", "ipv4-not-reversed-on-little-endian", L,
+  ("                ip = socket.inet_ntop(family, base64.b16decode(ip)[::-1])",
+   "                ip = socket.inet_ntop(family, base64.b16decode(ip))"), "fires:C11.R5")
+V("C11", "ipv6-word-order-wrong", L,
+  ("                        struct.pack('>4I', *struct.unpack('<4I', ip)),",
+   "                        struct.pack('>4I', *struct.unpack('>4I', ip)),"), "fires:C11.R5")
+V("C12", "readlink-esrch-not-caught", L,
+  ("            return readlink(path)\n        except (FileNotFoundError, ProcessLookupError):",
+   "            return readlink(path)\n        except FileNotFoundError:"), "fires:C12.R1")
+V("C12", "readlink-fallback-without-liveness", L,
+  ("            if os.path.lexists(f\"{self._procfs_path}/{self.pid}\"):\n                self._raise_if_zombie()\n                if fallback is not UNSET:\n                    return fallback\n            raise",
+   "            if fallback is not UNSET:\n                return fallback\n            raise"),
+  "fires:C12.R1")
+V("C12", "benign-readlink-catches-oserror-subset", L,
+  ("            return readlink(path)\n        except (FileNotFoundError, ProcessLookupError):",
+   "            return readlink(path)\n        except (ProcessLookupError, FileNotFoundError):"), "silent")
+V("C13", "maps-deleted-stripped-unconditionally", L,
+  ("                    if path.endswith(' (deleted)') and not path_exists_strict(\n                        path\n                    ):\n                        path = path[:-10]",
+   "                    if path.endswith(' (deleted)'):\n                        path = path[:-10]"),
+  "fires:C13.R3")
+V("C13", "benign-maps-deleted-nested-if", L,
+  ("                    if path.endswith(' (deleted)') and not path_exists_strict(\n                        path\n                    ):\n                        path = path[:-10]",
+   "                    if path.endswith(' (deleted)'):\n                        if not path_exists_strict(path):\n                            path = path[:-10]"),
+  "silent")
+V("C15", "wait-procs-slice-hoisted", I,
+  ("        for proc in alive:\n            # Make sure that every complete iteration (all processes)\n            # will last max 1 sec.\n            # We do this because we don't want to wait too long on a\n            # single process: in case it terminates too late other\n            # processes may disappear in the meantime and their PID\n            # reused.\n            max_timeout = 1.0 / len(alive)\n            if timeout is not None:\n                timeout = min((deadline - _timer()), max_timeout)\n                if timeout <= 0:\n                    break\n                check_gone(proc, timeout)\n            else:\n                check_gone(proc, max_timeout)\n",
+   "        max_timeout = 1.0 / len(alive)\n        if timeout is not None:\n            timeout = min((deadline - _timer()), max_timeout)\n            if timeout <= 0:\n                break\n        for proc in alive:\n            check_gone(proc, max_timeout if timeout is None else timeout)\n"),
+  "fires:C15.R6")
+V("C15", "benign-wait-procs-max-timeout-hoisted", I,
+  ("        for proc in alive:\n            # Make sure that every complete iteration (all processes)\n            # will last max 1 sec.\n            # We do this because we don't want to wait too long on a\n            # single process: in case it terminates too late other\n            # processes may disappear in the meantime and their PID\n            # reused.\n            max_timeout = 1.0 / len(alive)\n            if timeout is not None:",
+   "        max_timeout = 1.0 / len(alive)\n        for proc in alive:\n            if timeout is not None:"),
+  "silent")
